@@ -98,7 +98,9 @@ impl Formatter {
     fn format_docstring(&mut self, doc: &str) {
         // Trim leading and trailing whitespace from the docstring content
         // to ensure idempotent formatting
-        let trimmed = doc.trim();
+        // The text goes back between triple quotes, where the lexer processes escapes again.
+        let escaped = doc.trim().replace('\\', "\\\\").replace("\"\"\"", "\\\"\\\"\\\"");
+        let trimmed = escaped.as_str();
         if trimmed.is_empty() {
             self.writer.writeln("\"\"\"\"\"\"");
         } else if trimmed.contains('\n') {
@@ -109,9 +111,15 @@ impl Formatter {
             }
             self.writer.writeln("\"\"\"");
         } else {
-            // Single-line docstring
+            // Single-line docstring (a quote at the very end would merge with the closing quotes)
             self.writer.write("\"\"\"");
-            self.writer.write(trimmed);
+            match trimmed.strip_suffix('"') {
+                Some(head) => {
+                    self.writer.write(head);
+                    self.writer.write("\\\"");
+                }
+                None => self.writer.write(trimmed),
+            }
             self.writer.writeln("\"\"\"");
         }
     }
